@@ -19,9 +19,9 @@ MANIFEST = {
 INVARIANTS = ["C06_Batch", "C06_Groups", "C06_Counts"]
 PROPERTIES = []
 QUICK = ['nest_s', 'grp2']
-THOROUGH = ['nest_s', 'grp2', 'chain2', 'upd2', 'diamond', 'clean', 'sib', 'nest']
+THOROUGH = ['nest_s', 'grp2', 'chain2', 'upd2', 'diamond', 'clean', 'sib', 'nest', 'ffroot', 'ff_s', 'upd3', 'vee2']
 FINDINGS = [("uncchild", "upd2", ["C06_Batch"])]
 
 
 def run(ctx):
-    B.run_property(ctx, "C06", INVARIANTS, PROPERTIES, QUICK, THOROUGH, FINDINGS)
+    B.run_property(ctx, "C06", INVARIANTS, PROPERTIES, QUICK, THOROUGH, FINDINGS, overlap=['grp2', 'upd2'])
